@@ -316,10 +316,9 @@ func checkC02(ctx *Ctx) *Result {
 																if hdrs != "none" {
 																	pv[aCheck] = bval(hdrs == "subset")
 																}
+																// (an absent header reads as "" — R3.1 — hence not as `true`)
 																pv[aFoundPN] = bval(pna != "no")
-																if pna != "no" {
-																	pv[aPNTrue] = bval(pna == "yes")
-																}
+																pv[aPNTrue] = bval(pna == "yes")
 																needPre := method != "safe" || hdrs != "none" || pna == "yes"
 																// actual request: its method is never OPTIONS here; the
 																// OPTIONS-without-ACRM variant is compared separately below
